@@ -372,15 +372,26 @@ def connect_paths():
         if len(evs) != 1 or not isinstance(stmts[-1], ast.Return) or stmts[-1].value is not None:
             raise Untranslatable(f"_connect: {where}: an exit that does not raise exactly one event and return")
         return evs[0]
+    def uses_protocol(node):
+        """an awaited call that dereferences self._protocol (`await self._protocol.get(..)`, `await self.struct.get(self._protocol, ..)`)"""
+        for n in ast.walk(node):
+            if isinstance(n, ast.Await) and isinstance(n.value, ast.Call) and "self._protocol" in _u(n.value) \
+                    and (_u(n.value.func).startswith("self._protocol.") or any(_u(a) == "self._protocol" for a in n.value.args)):
+                return True
+        return False
     for st in fn.body:
         e = _emit_of(st, "self._event_handler")
         if e:
             steps.append(f".ev .{e}")
         elif _u(st) == "self._is_connected = True":
             steps.append(".setConnected")
+        elif _u(st) == "self._protocol = _protocol":
+            steps.append(".openProtocol")
         elif isinstance(st, ast.If) and _events_in(st):
             if st.orelse:
                 raise Untranslatable("_connect: event under if/else")
+            if uses_protocol(st.test):
+                steps.append(".useProtocol")
             fails.append(steps + [f".ev .{exit_of(st.body, 'if')}"])
         elif isinstance(st, ast.Try) and _events_in(st):
             if _events_in(ast.Module(body=st.body, type_ignores=[])) or st.orelse or st.finalbody or len(st.handlers) != 1:
@@ -390,6 +401,12 @@ def connect_paths():
             raise Untranslatable(f"_connect: event raised inside `{type(st).__name__}`")
         elif isinstance(st, ast.Return):
             raise Untranslatable("_connect: top-level return")
+        elif uses_protocol(st):
+            if not isinstance(st, (ast.Assign, ast.Expr)):
+                raise Untranslatable(f"_connect: protocol use inside `{type(st).__name__}`")
+            steps.append(".useProtocol")
+    if steps.count(".openProtocol") != 1 or ".useProtocol" in steps[:steps.index(".openProtocol")]:
+        raise Untranslatable("_connect: the protocol is not opened exactly once before its first use")
     if ".setConnected" not in steps or not steps[-1].startswith(".ev"):
         raise Untranslatable("_connect: does not set _is_connected before a final event")
     w = find_function(T.parse("async_spa.py"), "GeckoAsyncSpa.connect")
